@@ -14,6 +14,26 @@
 #include <unistd.h>
 
 static VAlloc va;
+
+// fstat as seen by zix_file_equals can be given faked device / inode numbers ("feqino"): linker --wrap=fstat
+static int   fake_stat;            // 0 = off; otherwise the n-th fstat call (1, 2) gets fake_dev[n-1] / fake_ino[n-1]
+static long  fake_dev[2], fake_ino[2];
+int __real_fstat(int fd, struct stat* sb);
+int __wrap_fstat(int fd, struct stat* sb);
+int __wrap_fstat64(int fd, struct stat* sb);
+static int
+wrap_fstat_common(int fd, struct stat* sb)
+{
+  const int rc = __real_fstat(fd, sb);
+  if (!rc && fake_stat >= 1 && fake_stat <= 2) {
+    if (fake_dev[fake_stat - 1] >= 0) sb->st_dev = (dev_t)fake_dev[fake_stat - 1];
+    sb->st_ino = (ino_t)fake_ino[fake_stat - 1];
+    ++fake_stat;
+  }
+  return rc;
+}
+int __wrap_fstat(int fd, struct stat* sb) { return wrap_fstat_common(fd, sb); }
+int __wrap_fstat64(int fd, struct stat* sb) { return wrap_fstat_common(fd, sb); }
 static char   scratch[PATH_MAX];   // .../S
 static char   work[PATH_MAX];      // .../S/w  (the working directory)
 
@@ -204,6 +224,17 @@ main(int argc, char** argv)
       if (r1 != same || r2 != same) printf(" SPEC-FAIL:equals-iff-identical-bytes");
       printf(" fds=%d\n", count_fds() == fds0);
       free(a); free(b);
+    } else if (!strcmp(tok[0], "feqino") && n == 6) {
+      // feqino <devA> <inoA> <devB> <inoB> <same-content 0|1>: two different files whose fstat results carry the given
+      // device (-1 = the real one) and inode numbers
+      const int same_content = atoi(tok[5]);
+      write_file("A", (const unsigned char*)"aaaa", 4);
+      write_file("B", (const unsigned char*)(same_content ? "aaaa" : "aaab"), 4);
+      fake_dev[0] = atol(tok[1]); fake_ino[0] = atol(tok[2]); fake_dev[1] = atol(tok[3]); fake_ino[1] = atol(tok[4]);
+      fake_stat = 1;
+      const bool r = zix_file_equals(&va.base, "A", "B");
+      fake_stat = 0;
+      printf("eq=%d fds=%d\n", r, count_fds() == fds0);
     } else if (!strcmp(tok[0], "feqmissing")) {
       write_file("A", (const unsigned char*)"abc", 3);
       const bool r1 = zix_file_equals(&va.base, "A", "nope"), r2 = zix_file_equals(&va.base, "nope", "A"),
